@@ -129,7 +129,7 @@ func init() {
 		Rule: "each case is a history of <=10 Store/Retrieve calls (two thirds of the cases: one fresh child process per call; one third: the whole history in ONE process on one FileSystem instance, sometimes with a second instance on the same directory, so that state kept inside the backend is observed; uid 65534; the FileSystem backend directly or through writer.Writer.Store / reader.Reader.Retrieve) against a map model id->document: configured directory missing (one or three levels deep) or existing; identifiers with path separators, dot-dot, absolute paths, unicode, newline, 1 MB, empty, and groups of distinct identifiers that a normalisation step (path cleaning, case folding, trimming, escaping, Unicode normalisation) would collapse; both no-clobber settings; nil options. " +
 			"After EVERY call: the result is compared with the model (proto.Equal), every known id is retrieved again (isolation), the scratch tree around the configured path is listed with content hashes (confinement: every file lies inside the directory; no-clobber: existing entry bytes unchanged). " +
 			"Fault steps: unknown id, entry chmod 000, a directory in place of the entry, 0-byte / truncated / bit-flipped entry, and - under the ptrace injector - EACCES/EIO/ENOSPC/EMFILE on the k-th file-system syscall of a Store or Retrieve for EVERY k of the fault-free run; " +
-			"every outcome must be a document or an error RETURN: never a dead process, neither/both, or an empty document. A sample of stores runs under the tracer to check that every created/renamed path is under the directory. distinct = hash of the history; non-trivial = history with >=2 different ids stored.",
+			"every outcome must be a document or an error RETURN: never a dead process, neither/both, or an empty document. A sample of stores runs under the tracer to check that every created/renamed path is under the directory. Half of the overwrites store a one-character variant of the stored document with the same encoded size; a quarter of the in-process histories switch the live instance's directory back and forth between two directories, each with its own model and entry count. distinct = hash of the history; non-trivial = history with >=2 different ids stored.",
 		Assumptions: []string{"a corrupted entry that still decodes to a non-empty document carrying the requested id is tolerated (the statement forbids exits, panics and silently EMPTY documents)", "children run as uid 65534 on a scratch tree they own (as root the directory-mode defect would be invisible)"},
 		NCases: func(tier string) int {
 			if tier == "thorough" {
